@@ -237,4 +237,134 @@ def judgeCP (P : Pair) (margin : Rat) (out : Option (ClosestPoints3 Rat)) : Stri
           | some N => if closeV (p2.sub p1) (N.smul sep) P.scale then "pass" else "fail p2-p1-is-not-sep*normal"
           | none => if close (rsqrt (p2.sub p1).normSq) sep P.scale then "pass" else "fail |p2-p1|-is-not-sep"
 
+
+/-! ## 2-D -/
+inductive WShape2 where
+  | ball (r : Float)
+  | cuboid (he : V2 Float)
+  | halfspace (n : V2 Float)
+  | capsule (a b : V2 Float) (r : Float)
+  | triangle (a b c : V2 Float)
+  | segment (a b : V2 Float)
+
+def pshape2 : P WShape2 := do
+  let k ← tok
+  match k with
+  | "ball" => do let r ← pf; pure (.ball r)
+  | "cuboid" => do let h ← pv2; pure (.cuboid h)
+  | "halfspace" => do let n ← pv2; pure (.halfspace n)
+  | "capsule" => do let a ← pv2; let b ← pv2; let r ← pf; pure (.capsule a b r)
+  | "triangle" => do let a ← pv2; let b ← pv2; let c ← pv2; pure (.triangle a b c)
+  | "segment" => do let a ← pv2; let b ← pv2; pure (.segment a b)
+  | _ => failure
+def WShape2.closed : WShape2 → Option (Shape2 Float)
+  | .ball r => some (.ball r)
+  | .cuboid h => some (.cuboid h)
+  | .halfspace n => some (.halfspace n)
+  | _ => none
+def WShape2.isBall : WShape2 → Bool
+  | .ball _ => true
+  | _ => false
+def vmag2 (v : V2 Rat) : Rat := rabs v.x + rabs v.y
+def WShape2.size : WShape2 → Rat
+  | .ball r => rabs (q r)
+  | .cuboid h => vmag2 (q2 h)
+  | .halfspace _ => 0
+  | .capsule a b r => vmag2 (q2 a) + vmag2 (q2 b) + rabs (q r)
+  | .triangle a b c => vmag2 (q2 a) + vmag2 (q2 b) + vmag2 (q2 c)
+  | .segment a b => vmag2 (q2 a) + vmag2 (q2 b)
+def WShape2.kind : WShape2 → String
+  | .ball _ => "ball" | .cuboid _ => "cuboid" | .halfspace _ => "halfspace"
+  | .capsule .. => "capsule" | .triangle .. => "triangle" | .segment .. => "segment"
+def qshape2 : Shape2 Float → Shape2 Rat
+  | .ball r => .ball (q r)
+  | .cuboid h => .cuboid (q2 h)
+  | .halfspace n => .halfspace (q2 n)
+
+def fcontact2 : Option (Contact2 Float) → String
+  | none => "none"
+  | some c => s!"some {fv2 c.point1} {fv2 c.point2} {fv2 c.normal1} {fv2 c.normal2} {ff c.dist}"
+def pov2 : P (V2 Float) := do let x ← pfo; let y ← pfo; pure ⟨x, y⟩
+def pcontactOut2 : P (Option (Contact2 Float)) := do
+  let t ← tok
+  if t = "none" then pure none
+  else if t = "some" then (do let a ← pov2; let b ← pov2; let c ← pov2; let d ← pov2; let e ← pfo; pure (some ⟨a, b, c, d, e⟩))
+  else failure
+def qcontact2 (c : Contact2 Float) : Contact2 Rat := ⟨q2 c.point1, q2 c.point2, q2 c.normal1, q2 c.normal2, q c.dist⟩
+def finite2 (v : V2 Float) : Bool := FloatIO.isFinite v.x && FloatIO.isFinite v.y
+def finiteContact2 (c : Contact2 Float) : Bool :=
+  finite2 c.point1 && finite2 c.point2 && finite2 c.normal1 && finite2 c.normal2 && FloatIO.isFinite c.dist
+/-- embed a 2-D contact in the plane `z = 0` (so that the comparison code is shared with 3-D) -/
+def embed (v : V2 Rat) : V3 Rat := ⟨v.x, v.y, 0⟩
+def embedC (c : Contact2 Rat) : Contact3 Rat :=
+  ⟨C03.embed c.point1, C03.embed c.point2, C03.embed c.normal1, C03.embed c.normal2, c.dist⟩
+
+def closeV2 (a b : V2 Rat) (scale : Rat) : Bool := close a.x b.x scale && close a.y b.y scale
+def unitC (m : Iso2 Rat) : Bool := close (m.re * m.re + m.im * m.im) 1 0
+
+structure Pair2 where
+  s1 : Shape2 Rat
+  pos1 : Iso2 Rat
+  s2 : Shape2 Rat
+  pos2 : Iso2 Rat
+def shapeSize2 : Shape2 Rat → Rat
+  | .ball r => rabs r
+  | .cuboid he => vmag2 he
+  | .halfspace _ => 0
+def Pair2.scale (P : Pair2) : Rat := vmag2 P.pos1.t + vmag2 P.pos2.t + shapeSize2 P.s1 + shapeSize2 P.s2
+def Pair2.slack (P : Pair2) : Rat := tol * (1 + P.scale)
+def minAlong2 (s : Shape2 Rat) (pos : Iso2 Rat) (N base : V2 Rat) : Option Rat :=
+  match s with
+  | .ball r => some (N.dot (pos.t.sub base) - r)
+  | .cuboid he =>
+    let cs : List (V2 Rat) := [⟨he.x, he.y⟩, ⟨-he.x, he.y⟩, ⟨he.x, -he.y⟩, ⟨-he.x, -he.y⟩]
+    let vals := cs.map fun c => N.dot ((pos.act c).sub base)
+    match vals with
+    | [] => none
+    | v :: vs => some (vs.foldl min v)
+  | .halfspace _ => none
+def Pair2.sep (P : Pair2) : Option (Rat × Option (V2 Rat)) :=
+  if !(unitC P.pos1 && unitC P.pos2) then none else
+  match P.s1, P.s2 with
+  | .ball r1, .ball r2 =>
+    let d := P.pos2.t.sub P.pos1.t
+    let len := rsqrt d.normSq
+    some (len - (r1 + r2), if len * 1000000 < 1 then none else some (d.sdiv len))
+  | .halfspace n, s =>
+    if !close n.normSq 1 0 then none else
+    let N := P.pos1.rot n
+    (minAlong2 s P.pos2 N P.pos1.t).map fun v => (v, some N)
+  | s, .halfspace n =>
+    if !close n.normSq 1 0 then none else
+    let N := P.pos2.rot n
+    (minAlong2 s P.pos1 N P.pos2.t).map fun v => (v, some N.neg)
+  | _, _ => none
+def memW2 (s : Shape2 Rat) (pos : Iso2 Rat) (p : V2 Rat) (slack : Rat) : Bool :=
+  let l := pos.invAct p
+  match s with
+  | .ball r => l.normSq ≤ (r + slack) * (r + slack)
+  | .cuboid he => rabs l.x ≤ he.x + slack && rabs l.y ≤ he.y + slack
+  | .halfspace n => n.dot l ≤ slack
+
+/-- 2-D version of `judgeContact` (world frame) -/
+def judgeContact2 (P : Pair2) (pred : Rat) (out : Option (Contact2 Rat)) : String :=
+  match P.sep with
+  | none => "skip no-exact-separation (pair kind or non-unit input)"
+  | some (sep, nrm) =>
+    let sl := P.slack
+    match out with
+    | none =>
+      if sep < pred - sl then s!"fail none-but-within-prediction sep={sep.toF} pred={pred.toF}" else "pass"
+    | some c =>
+      if sep > pred + sl then s!"fail some-but-beyond-prediction sep={sep.toF} pred={pred.toF}"
+      else if !close c.dist sep P.scale then s!"fail dist={c.dist.toF} expected-separation={sep.toF}"
+      else if !close c.normal1.normSq 1 0 then "fail normal1-not-unit"
+      else if !closeV2 c.normal2 c.normal1.neg 0 then "fail normal2-not-minus-normal1-in-world"
+      else if !close ((c.point2.sub c.point1).dot c.normal1) c.dist P.scale then "fail dist-not-(p2-p1).n1"
+      else if !memW2 P.s1 P.pos1 c.point1 sl then "fail point1-not-on-shape1"
+      else if !memW2 P.s2 P.pos2 c.point2 sl then "fail point2-not-on-shape2"
+      else match nrm with
+        | some N => if closeV2 c.normal1 N 1000 then "pass" else "fail normal1-direction"
+        | none => "pass"
+
 end C03
